@@ -113,6 +113,7 @@ def recipe_names(surf):
 
 def methods(H, rng):
     """read-only methods, views and statistics of the network object"""
+    import inspect as _insp0
     import xgi
     nodes = list(H.nodes); edges = list(H.edges)
     di = isinstance(H, xgi.DiHypergraph)
@@ -161,6 +162,26 @@ def methods(H, rng):
         m["nodes.duplicates"] = lambda: H.nodes.duplicates()
         m["nodes.average_neighbor_degree"] = lambda: H.nodes.average_neighbor_degree.asdict()
         m["nodes.clustering_coefficient"] = lambda: H.nodes.clustering_coefficient.asdict()
+    # every method of the two views that can be called without a required argument: defaults, then each boolean option flipped
+    for vname, view in (("nodes", H.nodes), ("edges", H.edges)):
+        for mname in dir(type(view)):
+            if mname.startswith("_") or mname in ("from_view",):
+                continue
+            meth = getattr(view, mname, None)
+            if not callable(meth) or isinstance(getattr(type(view), mname, None), property):
+                continue
+            try:
+                ps = _insp0.signature(meth).parameters
+            except (TypeError, ValueError):
+                continue
+            if any(par.default is _insp0.Parameter.empty and par.kind in (par.POSITIONAL_ONLY, par.POSITIONAL_OR_KEYWORD) for par in ps.values()):
+                continue
+            key = f"{vname}.{mname}()"
+            if key not in m:
+                m[key] = lambda meth=meth: meth()
+            for q, par in ps.items():
+                if isinstance(par.default, bool):
+                    m[f"{vname}.{mname}({q}={not par.default})"] = lambda meth=meth, q=q, val=not par.default: meth(**{q: val})
     # every method with an in_place parameter, called with in_place=False: defaults, then each boolean option flipped
     import inspect as _insp
     for mname in dir(type(H)):
